@@ -1508,7 +1508,7 @@ int main(int argc, char **argv) {
     // core alphabet for triples: the first call of each kind
     {
         int seen[K_NKINDS] = {0};
-        for (int i = 0; i < NALPHA && NCORE < (mc_thorough ? 12 : 8); i++)
+        for (int i = 0; i < NALPHA && NCORE < (mc_thorough ? 10 : 8); i++)
             if (!seen[ALPHA[i].kind]) {
                 seen[ALPHA[i].kind] = 1;
                 CORE[NCORE++] = i;
@@ -1522,7 +1522,7 @@ int main(int argc, char **argv) {
     if (mc_replaying_file) return mc_do_replay(mc_replaying_file);
     // cost caps (estimated seconds per program); 0 = no cap
     PairPlan fine1 = {1, 0, 0}, coarse2 = {mc_thorough ? 3 : 2, 1, mc_thorough ? 30 : 1.5}, fine2 = {2, 0, mc_thorough ? 30 : 1.0};
-    PairPlan tri_c = {2, 1, mc_thorough ? 60 : 3}, tri_f = {1, 0, mc_thorough ? 60 : 3}, fl_c = {mc_thorough ? 2 : 1, 1, mc_thorough ? 5 : 0.5}, fl_f = {1, 0, mc_thorough ? 5 : 0.3};
+    PairPlan tri_c = {2, 1, mc_thorough ? 10 : 3}, tri_f = {1, 0, mc_thorough ? 10 : 3}, fl_c = {mc_thorough ? 2 : 1, 1, mc_thorough ? 5 : 0.5}, fl_f = {1, 0, mc_thorough ? 5 : 0.3};
     int nf2 = 0;
     for (int i = 0; i < NALPHA; i++)
         for (int j = i; j < NALPHA; j++)
@@ -1543,10 +1543,10 @@ int main(int argc, char **argv) {
     mc_phase("schedules: all pairs, fine, <=1 preemption", ph_pairs_b, &fine1);
     mc_phase("schedules: all pairs, coarse, <=2(3) preemptions", ph_pairs_b, &coarse2);
     mc_phase("schedules: small pairs, fine, <=2 preemptions", ph_pairs_b, &fine2);
-    mc_phase("schedules: core triples, coarse, <=2", ph_triples, &tri_c);
-    mc_phase("schedules: core triples, fine, <=1", ph_triples, &tri_f);
     mc_phase("schedules x allocation faults, coarse, <=2", ph_faults, &fl_c);
     mc_phase("schedules x allocation faults, fine, <=1", ph_faults, &fl_f);
+    mc_phase("schedules: core triples, coarse, <=2", ph_triples, &tri_c);
+    mc_phase("schedules: core triples, fine, <=1", ph_triples, &tri_f);
     return mc_finish();
 }
 #endif
